@@ -97,7 +97,7 @@ def _cond(fam, level, fileset, nlines, nparts, part, decor=0, tiers=('quick', 't
 _T = ('thorough',)
 HARNESSES = (
     [_cond('tok_f3', 't', 'F', 3, 8, p) for p in range(8)] +                      # all kinds, 3 lines: 123 files
-    [_cond('tok_r4', 't', 'R', 4, 8, p) for p in range(8)] +                      # 7 classes, 4 lines: 57 files
+    [_cond('tok_r4', 't', 'R', 4, 8, p, tiers=_T) for p in range(8)] +            # 7 classes, 4 lines: 57 files (quick: covered by c09_sym_*)
     [_cond('tok_n5', 't', 'N', 5, 4, p) for p in range(4)] +                      # nested conditionals with text, 5 lines: 20 files
     [_cond('chr_m3', 'c', 'M', 3, 1, 0, d) for d in range(4)] +                   # real character level: open, marker, endif x 4 spellings
     [_cond('tok_r5', 't', 'R', 5, 8, p, tiers=_T) for p in range(8)] +                   # 265 files
@@ -121,29 +121,73 @@ _SYM_TUS = ['src/cppparser/cppPreprocessor.cxx', 'src/cppparser/cppExpressionPar
 # never resets the outer counter and reports a bogus unwinding failure as soon as the read position is symbolic.  The
 # unoptimised IR has one loop and properly nested if/else diamonds (path guards collapse at every join).
 _SYM_TUFLAGS = ['-fno-inline', '-Xclang', '-disable-llvm-passes']
-_CLS = {'any': 100, 'openT': 101, 'openF': 102, 'text': 103, 'open': 104, 'elif': 105, 'close': 106, 'notopen': 107}
-
-
-def _sym(name, nl, dmax, p0='any', p1='any', p2='any', step=1, start=-1, pend=-1, tiers=('quick', 'thorough'), cap=_CAP):
-    defs = {'MODE': 0, 'NL': nl, 'DMAX': dmax, 'STEP': step, 'START': start, 'PEND': pend, 'P0': _CLS.get(p0, p0), 'P1': _CLS.get(p1, p1), 'P2': _CLS.get(p2, p2)}
-    us = dict(_STR_US)
-    b = {'defs': defs, 'unwind': 2 * nl + 4, 'unwindset': us, 'cap': cap}
+def _sym(name, nl, dmax, step=1, start=-1, pend=-1, tiers=('quick', 'thorough'), cap=_CAP, extra=None):
+    defs = {'MODE': 0, 'NL': nl, 'DMAX': dmax, 'STEP': step, 'START': start, 'PEND': pend}
+    defs.update(extra or {})
+    b = {'defs': defs, 'unwind': 2 * nl + 4, 'unwindset': dict(_STR_US), 'cap': cap}
+    alphabet = ('the directive at EVERY line is a symbolic draw from 17 kinds: #if 1/0, #ifdef D/U, #ifndef U/D, #elif 1/0, #elifdef D/U, '
+                '#elifndef U/D, #else, #endif, #define X, #error e, text marker; assumed: well nested, nesting depth <= %d '
+                '(shorter scripts through leading/trailing text lines)' % dmax)
+    if step:
+        desc = ('ONE dispatch step (REAL process_directive incl. its skip_false_if_block(false), or one REAL skip_false_if_block(true)) '
+                'over a fully symbolic script of %d lines, from a symbolic read position in a symbolic state (normal / skip due) that '
+                'the reference interpreter allows' % nl)
+        domain = alphabet + '; start line 0..%d and state symbolic, constrained only by the invariant' % nl
+        oracle = ('independent reference interpreter of C11 6.10.1 (stack of open conditionals) over the same script: the step ends at the '
+                  'start of a later line in a state where the reference is in the same situation (inside a kept group / still looking for a '
+                  'group to keep), and the text lines, #define and #error acted upon in between are exactly the reference\'s; induction over '
+                  'the steps (outside the solver, cross-checked by the whole-run entries c09_sym_run*) gives the whole file; directives '
+                  'outside the alphabet and the unknown-directive warning proved unreachable')
+    else:
+        desc = ('whole run of the directive dispatch (REAL process_directive + REAL skip_false_if_block, deferred handler skips) over a '
+                'fully symbolic script of %d lines' % nl)
+        domain = alphabet
+        oracle = ('independent reference interpreter of C11 6.10.1 over the same script: surviving text lines, #define and #error acted '
+                  'upon are exactly the reference\'s; whole file consumed')
     return {'id': 'c09_sym_' + name, 'property': 'C09', 'src': 'c09_sym.cxx', 'entry': 'harness_c09_sym',
             'tus': _SYM_TUS, 'skip_ctors': ['cppPreprocessor.cxx'], 'tuflags': _SYM_TUFLAGS,
+            # reader (line level), #define/#error recorders, the three condition handlers (contract: c09_sym_handle),
+            # string equality + location bookkeeping below the logic; the rest "must not be reached"
             'cut': _COND_CUT[:5] + _COND_CUT[9:] + _HANDLERS + _UNREACHED + [_OPPLUS, _WARN] + _BOOK,
+            # --pointer-check: 3.5x the time (see _cond); bounds/overflow/shift checks and the crash assertions stay on
             'cbmc_flags': ['--no-pointer-check', '--max-field-sensitivity-array-size', '128'], 'object_bits': 16,
-            'desc': 'REAL process_directive + skip_false_if_block over a SYMBOLIC script of %d lines' % nl,
-            'domain': 'TODO', 'oracle': 'TODO',
+            'desc': desc, 'domain': domain, 'oracle': oracle,
             'bounds': {'quick': b, 'thorough': b}, 'tiers': tiers}
 
 
-HARNESSES = HARNESSES + [_sym('d83', 8, 3, cap=500), _sym('d83p', 8, 3, cap=500)]
-HARNESSES[-1]['cbmc_flags'] = HARNESSES[-1]['cbmc_flags'][1:]
+def _handle():
+    b = {'defs': {'MODE': 1}, 'unwind': 20, 'unwindset': dict(_STR_US), 'cap': _CAP}
+    return {'id': 'c09_sym_handle', 'property': 'C09', 'src': 'c09_sym.cxx', 'entry': 'harness_c09_handle',
+            'tus': _SYM_TUS, 'skip_ctors': ['cppPreprocessor.cxx'], 'tuflags': _TUFLAGS,
+            'cut': _COND_CUT[:3] + _COND_CUT[5:9] + ['_ZN15CPPPreprocessor19skip_false_if_blockEb'] + _UNREACHED + [_DISJUNCT],
+            'models': ['strdisjunct.c'],
+            'cbmc_flags': ['--max-field-sensitivity-array-size', '128'], 'object_bits': 16,
+            'desc': 'contract of the REAL handle_if_directive / handle_ifdef_directive / handle_ifndef_directive that the c09_sym_* '
+                    'entries use in deferred form',
+            'domain': 'symbolic choice of handler and of the argument ("1"/"0" for #if, "D"(defined)/"U" for #ifdef and #ifndef); '
+                      'skip_false_if_block and the reader are recorders; expression parsing/evaluation cut as in c09_tok_*',
+            'oracle': 'skip_false_if_block is called exactly once, with consider_elifs == true, iff the condition is false; the handler '
+                      'reads nothing itself and leaves _start_of_line alone',
+            'bounds': {'quick': b, 'thorough': b}}
+
+
+# (first in the list: the whole-run entries are the longest single queries of their tier)
+HARNESSES = [_sym('run4', 4, 2, step=0), _sym('step8', 8, 3), _handle(),
+             _sym('run5', 5, 2, step=0, tiers=_T), _sym('step12', 12, 4, tiers=_T)] + HARNESSES
 
 PROPERTY_INFO = {'C09': {'level': 'model_checking',
-         'explanation': 'bounded symbolic execution (CBMC) of the real conditional-inclusion code of cppPreprocessor.cxx',
+         'explanation': 'bounded symbolic execution (CBMC) of the real conditional-inclusion code of cppPreprocessor.cxx: '
+                        '(1) c09_sym_*: fully symbolic directive scripts (every line a symbolic draw from the 17-kind alphabet, nesting '
+                        'depth <= 3 at 8 lines / <= 4 at 12 lines) against an independent C11 6.10.1 reference interpreter, as one '
+                        'dispatch step from an arbitrary reference-consistent state (inductive invariant) and as whole runs at 4/5 lines; '
+                        '(2) c09_tok_* / c09_chr_*: exhaustive concrete enumeration of all well-nested files of 3..5 lines with every '
+                        'function real (token level) and through the real character-level reader',
          'outside': 'controlling expressions other than the literals 0 and 1 (expression evaluation is C07; macro expansion inside '
                     '#if is cut), __has_include, conditionals spanning include files, unbalanced conditionals',
-         'assumptions': []}}
+         'assumptions': ['c09_sym_*: handle_if/ifdef/ifndef_directive enter in deferred-contract form (the skip they request is executed '
+                         'by the driver as the next step; they are called in tail position); the contract is checked on the real '
+                         'handlers by c09_sym_handle',
+                         'c09_sym_step*: the induction over dispatch steps is outside the solver (cross-checked by the whole-run '
+                         'entries c09_sym_run4 / c09_sym_run5 and by the enumerations)']}}
 
 NOT_APPLICABLE = {}
